@@ -84,7 +84,7 @@ def main():
             shutil.copy(demo, os.path.join(d, "demo.py"))
             for h in helpers:
                 shutil.copy(os.path.join(out_dir, h), os.path.join(d, h))
-            notes = os.path.join(out_dir, {"A": "notes.md", "B": "notes.md", "C": "notes2.md", "D": "notes2.md"}.get(letter, "notes3.md"))
+            notes = os.path.join(out_dir, {"A": "notes.md", "B": "notes.md", "C": "notes2.md", "D": "notes2.md", "E": "notes3.md", "F": "notes3.md", "G": "notes4.md", "H": "notes4.md", "I": "notes4.md"}.get(letter, "notes5.md"))
             old_meta_needs = f"see agent_notes.md (section on change {letter})"
             if os.path.exists(notes):
                 shutil.copy(notes, os.path.join(d, "agent_notes.md"))
